@@ -11,9 +11,43 @@ Definition reach (idl : bool) (s : st) (log : list ev) : Prop :=
 Definition kind_eqb (a b : kind) : bool :=
   match a, b with
   | KData x, KData y => N.eqb x y
+  | KDataNil, KDataNil => true
   | KError, KError => true
   | KComplete, KComplete => true
+  | KConnErr x, KConnErr y => Bool.eqb x y
+  | KUnknown, KUnknown => true
   | _, _ => false
+  end.
+
+(* What an upstream frame MEANS, read from the two protocol documents the code cites (and, where they
+   are silent, from what the decoders accept), written independently of Model.decode / into_client:
+     FcSub w k  the frame addresses the one subscription with wire id w and means k for it -- a
+                next/data with a usable (or no) payload, a complete, an error with OR WITHOUT payload,
+                a legacy connection_error that carries an id.  Terminal k ends w and nothing else;
+     FcNone     the frame concerns no subscription: ping / pong / ka, and any data, error, complete or
+                connection_error frame WITHOUT an id (the routing table has no entry for the empty id:
+                such a frame is dropped, the connection and every subscription on it go on);
+     FcFault    the upstream violates the protocol: not JSON, an unknown "type", a type of the other
+                sub-protocol, a connection_ack after the handshake, a next/data payload that is not an
+                execution result.  Reading such a frame fails: the connection is lost through the
+                upstream's fault, exactly as if it had been dropped. *)
+Inductive fclass := FcSub (w : nat) (k : kind) | FcNone | FcFault.
+Definition with_id (f : frame) (k : kind) : fclass :=
+  match f_id f with Some w => FcSub w k | None => FcNone end.
+Definition data_class (f : frame) : fclass :=
+  match f_pl f with
+  | PBad => FcFault
+  | PObj t => with_id f (KData t)
+  | PNone => with_id f KDataNil
+  end.
+Definition spec_class (p : proto) (f : frame) : fclass :=
+  match f_type f, p with
+  | FNext, PTws | FData, PGws => data_class f
+  | FError, _ => with_id f (match f_pl f with PNone => KConnErr false | _ => KError end)
+  | FComplete, _ => with_id f KComplete
+  | FConnError, PGws => with_id f (KConnErr true)
+  | FPing, PTws | FPong, PTws | FKa, PGws => FcNone
+  | _, _ => FcFault
   end.
 
 (* scanner state: live registrations (conn, wire id, subscription) learnt from the upstream's own
@@ -45,10 +79,14 @@ Definition set_reg (r : rs) (l : list (nat * nat * nat)) : rs :=
 Definition scan_plain (r : rs) (e : ev) : option rs :=
   match e with
   | ODeliver _ _ => None                                  (* a delivery nobody sent *)
-  | OUp c w k =>
-    match find_reg c w (r_reg r) with
-    | Some i => Some (set_exp r (Some (i, k, negb (mem_nat i (r_canc r)), c, w)))
-    | None => Some r
+  | OUp c p f =>
+    match spec_class p f with
+    | FcSub w k =>
+      match find_reg c w (r_reg r) with
+      | Some i => Some (set_exp r (Some (i, k, negb (mem_nat i (r_canc r)), c, w)))
+      | None => Some r
+      end
+    | _ => Some r                                         (* no subscription concerned / the socket dies: OSrvClosed follows *)
     end
   | OSrvSub c w i =>
     if mem_nat w (r_used r) then None                     (* wire id reused *)
@@ -85,6 +123,16 @@ Definition scan_end (r : rs) : bool :=
    nobody else, nothing is delivered that was not sent; a terminal frame ends only (c, w). *)
 Definition routing_b (log : list ev) : bool :=
   match scan rs0 log with Some r => scan_end r | None => false end.
+
+(* terminal_local on one observation window (the events between one upstream frame and the next harness
+   event): after a frame that means something for ONE subscription, every delivery goes to its holder and
+   nobody is told that the connection is gone *)
+Definition tlocal_b (holder : option nat) (win : list ev) : bool :=
+  forallb (fun e => match e with
+                    | ODeliver j _ => match holder with Some i => Nat.eqb i j | None => false end
+                    | OConnErr _ _ => false
+                    | _ => true
+                    end) win.
 
 (* ------------------------------------------------------------------ cancel_isolated *)
 Definition blame_ok (j : nat) (c : cause) : Prop :=
@@ -150,6 +198,7 @@ Definition iso1 (keys : list (nat * key)) (r : is) (e : ev) : option is :=
   | OSrvDial d k => Some {| i_dial := (d, k) :: i_dial r; i_faultk := i_faultk r; i_faultc := i_faultc r;
                             i_canc := i_canc r; i_on := i_on r |}
   | OReject d | OInitFail d _ | ODrop d | OPing d => Some (fault r d)
+  | OUp c p f => match spec_class p f with FcFault => Some (fault r c) | _ => Some r end
   | OCancel i => Some {| i_dial := i_dial r; i_faultk := i_faultk r; i_faultc := i_faultc r;
                          i_canc := i :: i_canc r; i_on := i_on r |}
   | OSrvSub c _ i => Some {| i_dial := i_dial r; i_faultk := i_faultk r; i_faultc := i_faultc r;
@@ -222,6 +271,19 @@ Definition drain_b (log : list ev) : bool :=
   end.
 
 (* ------------------------------------------------------------------ SSE *)
+(* an SSE stream carries one subscription: every event that parses is delivered to that handler and to
+   no other; what an event means (graphql-sse, and the decoder's reading of untyped events) *)
+Definition sse_class (e : sse_event) : option kind :=
+  match se_type e, se_data e with
+  | SNext, DObj t => Some (KData t)
+  | SNext, _ => Some (KConnErr true)                    (* unusable payload: the stream is given up *)
+  | SError, _ => Some KError
+  | SComplete, _ => Some KComplete
+  | SNoType, DAbsent => None                            (* comment / keep-alive *)
+  | (SNoType | SOtherType), DObj t => Some (KData t)
+  | (SNoType | SOtherType), DBad => Some (KConnErr true)
+  | (SNoType | SOtherType), _ => Some KComplete
+  end.
 Fixpoint sse_scan (act : list nat) (exp : option (nat * kind)) (l : list ev) : bool :=
   match exp, l with
   | Some (i, k), OSseDeliver i' k' :: t =>
@@ -230,7 +292,9 @@ Fixpoint sse_scan (act : list nat) (exp : option (nat * kind)) (l : list ev) : b
   | None, [] => true
   | None, OSseDeliver _ _ :: _ => false
   | None, OSseRet i true :: t => sse_scan (i :: act) None t
-  | None, OSseUp i k :: t => if mem_nat i act then sse_scan act (Some (i, k)) t else sse_scan act None t
+  | None, OSseUp i e :: t =>
+    if mem_nat i act then match sse_class e with Some k => sse_scan act (Some (i, k)) t | None => sse_scan act None t end
+    else sse_scan act None t
   | None, OSseErr i :: t => sse_scan (filter (fun j => negb (Nat.eqb j i)) act) None t
   | None, OCancel i :: t => sse_scan (filter (fun j => negb (Nat.eqb j i)) act) None t
   | None, _ :: t => sse_scan act None t
